@@ -4,7 +4,7 @@ from __future__ import annotations
 import ast
 import re
 
-from ..loader import AnalysisError, dotted, norm, walk_no_defs
+from ..loader import const_eval, AnalysisError, dotted, norm, walk_no_defs
 from ..minieval import MiniEval, Obj, Unsupported
 from ..paths import FP, PE, Executor, Out, Semantics
 from ..report import RuleReport
@@ -207,8 +207,11 @@ def r2_sentinels(a, tier):
     names = list(_strings('a1_-', 3))
     domain = {'match_int': numeric, 'match_uint': numeric, 'match_float': numeric, 'match_bool': words, 'match_name': names}
 
+    from ..minieval import module_constants
+    consts = module_constants(mod)
+
     def ev():
-        e = MiniEval({})
+        e = MiniEval(dict(consts))
         for n, f in fns.items():
             e.globals[n] = ('<func>', f.node, {})
         return e
@@ -325,38 +328,20 @@ CACHE_ATTRS = {'line_cache', 'linecache'}
 
 
 def r3_cache_guards(a, tier):
+    from .c12 import edge_positions
     rep = RuleReport(
         'C08.R3',
-        'sibling guards on the line caches: in every Cursor/Text implementation each function that indexes a line cache '
-        '(line_cache / linecache) first tests that cache for emptiness and returns (an empty text has an empty cache), like '
-        'its siblings do',
-        floor=6,
+        'failure positions at the edges are answered: lineinfo / lineat (posline) / poscol of TextLinesCursor, BufferCursor and '
+        'Buffer, interpreted at offset len(text) for every text over {a, LF} up to length 2 - including the EMPTY text, whose line '
+        'cache is [] - return without an exception (an "unexpected end of input" failure is rendered through them)',
+        floor=40,
     )
-    for f in a.p.functions.values():
-        if not f.module.name.startswith('tatsu.input.'):
-            continue
-        subs = [n for n in walk_no_defs(f.node) if isinstance(n, ast.Subscript) and isinstance(n.ctx, ast.Load)
-                and isinstance(n.value, ast.Attribute) and n.value.attr in CACHE_ATTRS]
-        if not subs:
-            continue
-        cache_expr = norm(subs[0].value)
-        guarded = False
-        for s in f.node.body:
-            if s.lineno >= subs[0].lineno:
-                break
-            if isinstance(s, ast.If) and any(isinstance(x, ast.Return) for x in s.body):
-                t = s.test
-                parts = t.values if isinstance(t, ast.BoolOp) and isinstance(t.op, ast.Or) else [t]
-                for p in parts:
-                    if isinstance(p, ast.UnaryOp) and isinstance(p.op, ast.Not):
-                        inner = norm(p.operand)
-                        if inner == cache_expr or inner.endswith('.indexed()') or inner == 'self.indexed()':
-                            guarded = True
-        rep.add({'function': f.qualname, 'indexes': cache_expr, 'emptiness_guard_first': guarded})
-        if not guarded:
-            rep.fail(f.qualname, f'unguarded-index:{cache_expr}', f'`{norm(subs[0])}` indexes the line cache without the emptiness guard its '
-                     f'siblings have: for an empty text the cache is [] and this raises IndexError (e.g. parseinfo on the legacy '
-                     f'buffer)', f'{f.module.relpath}:{subs[0].lineno}')
+    for row in edge_positions(a):
+        rep.add(row)
+        if not row['ok']:
+            rep.fail(row['fn'], f'edge:{row["text"]!r}:{row["offset"]}', f'{row["impl"]}.{row["query"]}({row["offset"]}) on the text '
+                     f'{row["text"]!r} {row["result"]}: rendering a failure at the end of that text raises instead of showing it '
+                     f'(e.g. parseinfo or an error message on an empty text)', a.p.func(row['fn']).loc)
     return rep
 
 
@@ -413,7 +398,7 @@ def r6_scanner_bounds(a, tier):
         bc = BoundsChecker(f, module_len_consts(f.module))
         bc.run()
         if bc.param_violations and f.cls is None:
-            preconds[f.name] = [(ti, ii) for ti, ii, _, _ in bc.param_violations]
+            preconds[f.name] = [(ti, ii, bc.param_kinds.get((ti, ii), 'lt')) for ti, ii, _, _ in bc.param_violations]
     rbounds = {}
     for f in fns:
         if f.cls is None:
